@@ -333,7 +333,10 @@ static std::string utc(Toks& t) {
     for (long i = 0; i < circO; ++i) if (perm[i] < 0 || perm[i] >= circI) throw vh::BadArgs("perm");
     if (nz > 0) g.augmentWithNoise(Qin);
     const long cs = quat ? 4 : 1;
-    VectorDescription in(linI, circI, nz, ctype(quat)), out(linO, circO, 0, ctype(quat));
+    // an output without circular components carries the quaternion flag only for even component counts: its content is
+    // the same either way, but dim_circular_component of the output (4 vs 1) then differs from the input's
+    const bool quatO = quat && (circO > 0 || k % 2 == 0);
+    VectorDescription in(linI, circI, nz, ctype(quat)), out(linO, circO, 0, ctype(quatO));
     sigma_point::UTWeight w(in, a, b, kap);
     Snapshot s0(g);
     MatrixXd X = sigma_point::sigma_point(g, w.c);
